@@ -51,6 +51,43 @@ func judge(c *sim.Case, r *sim.Result) (string, string) {
 				}
 			}
 		}
+		if c.TimeoutP == 0 && r.Status == "failed" {
+			// … and the converse: "failed iff some step failed or could not be set
+			// up". A run in which every executed command succeeded on its last
+			// attempt and no set-up could fail has not failed.
+			cause := false
+			an := sim.Analyze(r.Trace)
+			for _, s := range c.Steps {
+				st := an[s.Name]
+				if s.SetupFail {
+					cause = true
+				}
+				if st == nil {
+					continue
+				}
+				lastAtt := 0
+				for att := range st.ExitOf {
+					if att > lastAtt {
+						lastAtt = att
+					}
+				}
+				if lastAtt > 0 && st.ExitErr[lastAtt] != "" {
+					cause = true
+				}
+				if len(st.Enters) > len(st.Exits) {
+					cause = true // an attempt without an exit event: unknown
+				}
+			}
+			if !cause {
+				culprit := ""
+				for n, f := range r.Final {
+					if f.Status == "failed" {
+						culprit = fmt.Sprintf(" (step %q is reported failed: %s)", n, f.Err)
+					}
+				}
+				return fmt.Sprintf("the run is reported failed although every command that was executed succeeded on its last attempt and no step's set-up was made to fail%s", culprit), "zoneA:no-stop"
+			}
+		}
 		return sim.JudgeHandlers(c, r, []string{bySteps}), "zoneA:no-stop"
 	case stopRet >= 0 && (stopRet < last || (c.Stop != nil && c.Stop.Trigger == "before")):
 		// zone B: the stop request had returned before the last step event
